@@ -36,7 +36,7 @@ DEFAULT_PROFILE = {
     "p_service_config": 0.8, "p_yaml": 0.3, "p_reserved_field": 0.08, "p_two_services": 0.25,
     "p_foreign_request": 0.1, "p_shuffle_numbers": 0.2, "p_additional_binding": 0.25, "p_param_name_collision": 0.0, "p_stream_of_empty": 0.06, "p_stream_routing": 0.0, "p_routing_name_clash": 0.0, "p_required_optional": 0.0, "p_body_only_in_additional": 0.0, "p_foreign_paged": 0.0, "p_case_twin_fields": 0.0, "p_deprecated_flattened": 0.0, "p_deep_path_var": 0.0,
     # post-pass shapes (drawn from a PRNG derived from the finished spec: they do not perturb the main stream)
-    "p_empty_routing": 0.0, "p_routing_shorthand": 0.0, "p_keyword_update_field": 0.0,
+    "p_struct_fields": 0.0, "p_empty_routing": 0.0, "p_routing_shorthand": 0.0, "p_keyword_update_field": 0.0,
     "p_auto_populate": 0.0, "p_google_api_ns": 0.0, "sig_variants": False, "p_multi_var_path": 0.0, "mixin_variants": False, "p_add_iam_methods": 0.0, "p_equal_sort_keys": 0.0, "p_reserved_path_var": 0.0, "p_local_empty": 0.0, "p_same_method_two_services": 0.0, "p_required_enum": 0.0, "p_custom_http_pattern": 0.0, "p_real_api": 0.04, "p_nested_name_ties": 0.15, "p_double_star_path": 0.0, "p_value_fields": 0.0, "p_mixed_foreign_io": 0.0, "common_file_names": ["resources"],
     "transports": ["grpc", "grpc+rest", "grpc+rest", "rest"],
     "p_numeric_enums": 0.3,
@@ -104,6 +104,7 @@ def _rand_field(cx, used, number, enums, msgs, allow_oneof=None, depth=0, allow_
             f["type_name"] = ".google.protobuf.Value"
             if rng.random() < 0.6:
                 f["repeated"] = True
+
     else:
         f["type"] = "message"  # placeholder type for map fields (ignored by lowering)
         vt = rng.random()
@@ -313,7 +314,7 @@ def _post_shapes(cx, spec):
     import random
     from . import rng as rng_mod
     p = cx.p
-    if not any(p.get(k, 0) > 0 for k in ("p_empty_routing", "p_routing_shorthand", "p_keyword_update_field")):
+    if not any(p.get(k, 0) > 0 for k in ("p_empty_routing", "p_routing_shorthand", "p_keyword_update_field", "p_struct_fields")):
         return
     prng = random.Random(int(rng_mod.digest(spec)[:16], 16))
     methods = [(fs, s, m) for fs, s, m in all_methods(spec)]
@@ -344,6 +345,19 @@ def _post_shapes(cx, spec):
             for rp in m.get("routing") or []:
                 rp["field"] = ren(rp["field"])
             break
+    if prng.random() < p.get("p_struct_fields", 0):
+        # `repeated google.protobuf.Struct rows` named by a method_signature (sibling of Vertex AI's repeated Value
+        # instances): proto-plus cannot ASSIGN a list of Structs, it can only extend the field
+        cands = []
+        for fs, s, m in methods:
+            req = next((x for x in fs.get("messages", ()) if "." + fs["package"] + "." + x["name"] == m["input"]), None)
+            if req is not None and m.get("signatures") and m["signatures"][0] and not any(f["name"] == "rows" for f in req["fields"]) \
+                    and not m.get("client_streaming") and all(f["number"] != 15 for f in req["fields"]):
+                cands.append((m, req))
+        if cands:
+            m, req = prng.choice(cands)
+            req["fields"].append({"name": "rows", "number": 15, "type": "message", "type_name": ".google.protobuf.Struct", "repeated": True})
+            m["signatures"][0] = m["signatures"][0] + ",rows"
     if prng.random() < p.get("p_routing_shorthand", 0):
         # `{key}` without `=`: shorthand for `{key=*}`
         cands = [m for fs, s, m in methods if m.get("routing")]
